@@ -20,4 +20,12 @@ LsnNext == \/ hist = <<>> /\ Connect("c1")
            \/ Len(hist) = 5 /\ Connect("c2")
            \/ Len(hist) = 6 /\ Auth("c2", "good")
 LsnSpec == Init /\ [][LsnNext]_vars
+(* a newcomer whose replay is overtaken by a live event, with zero, one or two operators already present *)
+RaceNext == \/ hist = <<>> /\ (Connect("c1") \/ Connect("c2"))
+            \/ Len(hist) = 1 /\ (\E c \in Clients : Auth(c, "good") \/ AuthRace(c))
+            \/ Len(hist) = 2 /\ (Chat("c1") \/ Register("a1") \/ AddLsn("l1") \/ Connect("c2") \/ Connect("c3"))
+            \/ Len(hist) = 3 /\ (\E c \in Clients : Connect(c) \/ AuthRace(c) \/ Chat(c))
+            \/ Len(hist) = 4 /\ (\E c \in Clients : AuthRace(c) \/ Chat(c) \/ Connect(c))
+            \/ Len(hist) = 5 /\ (\E c \in Clients : AuthRace(c) \/ Auth(c, "good"))
+RaceSpec == Init /\ [][RaceNext]_vars
 =============================================================================
